@@ -31,14 +31,12 @@ Proof. unfold mex_ops, minit. repeat mstep_valid. Qed.
 Example mex_result :
   let w := mrun minit mex_ops in
   map (mabs (mhp w)) (mats w) =
-  [ [[0; 3; 0]; [6; 0; 9]];            (* Set from dense, times 3; SwapRows answers "not square" *)
+  [ [[0; 3; 0]; [0; 0; 9]];            (* Set from dense, times 3 = [[0;3;0];[6;0;9]]; then Reset of its T()
+                                          zeroes the cells the two share (F-SPT-REF): (1,0) reads 0 *)
     [[0; 0]; [0; 0]; [0; 0]];          (* the transpose, reset *)
     [[1; 0]; [0; 1]; [0; 0]] ].        (* clone, SetIdentity on 2x3, Tip -> 3x2 *)
 Proof. vm_compute. reflexivity. Qed.
 (* outcome kinds and payloads along the same history *)
-Example mex_outs :
-  map (fun o => fst o) (ADV.C11.ModelMat.mstep (mrun minit (firstn 12 mex_ops)) (MIterate 0) :: nil) <> nil.
-Proof. discriminate. Qed.
 Example mex_iterate :
   snd (mstep (mrun minit (firstn 12 mex_ops)) (MIterate 0)) = (K_OK, [0; 1; 3; 1; 0; 6; 1; 2; 9]).
 Proof. vm_compute. reflexivity. Qed.
@@ -49,8 +47,8 @@ Proof. vm_compute. reflexivity. Qed.
 (* a whole matrix satisfying MInv and Wf, non-trivially *)
 Example mex_inv :
   let w := mrun minit (firstn 4 mex_ops) in
-  mabs (mhp w) (getm w 0) = [[4; 0; 0]; [7; 0; 5]] /\
-  map fst (vals (mv (getm w 0))) = [3; 0; 5] /\ idx (mv (getm w 0)) = [0; 3; 5].
+  mabs (mhp w) (getm w 0) = [[4; 0; 0]; [7; 0; 0]] /\
+  map fst (vals (mv (getm w 0))) = [0; 3; 1] /\ idx (mv (getm w 0)) = [0; 1; 3].   (* key 1: stored zero *)
 Proof. vm_compute. auto. Qed.
 
 (* T(): transposition; a write through T() to an EXISTING entry reaches the parent, a
